@@ -13,9 +13,9 @@ inline void relink(Sig &s) {
 }
 inline void flipByte(Bytes &b, Dec &d, size_t from = 1) { if (b.size() > from) { size_t i = from + d.pick((uint32_t)(b.size() - from)); b[i] ^= (uint8_t)(1u << d.pick(8)); } }
 enum SigMut { SM_NEXT_INPUT, SM_SIBLING, SM_CORR, SM_ALG_OTHER, SM_ALG_SHA1, SM_ALG_UNSUPPORTED, SM_CHAIN_TIME, SM_INDEX_LAST, SM_INDEX_ADD, SM_INDEX_DROP, SM_LINK_DIR, SM_CAL_INPUT, SM_CAL_AGGRTIME, SM_CAL_DROP_AGGRTIME,
-              SM_CAL_DIR, SM_CAL_PUBTIME, SM_CAL_SIBLING, SM_REC_TIME, SM_REC_HASH, SM_DOC_SHA1, SM_RFC_INPUT, SM_RFC_TIME, SM_RFC_INDEX, SM_RFC_ALG_SHA1, SM_RFC_PREFIX, SM_META_PAD, SM_CORR_OVERFLOW, SM_CAL_EXTRA_LINK, SM_CAL_SIB_ALG, SM_RFC_OUT_SHA1, SM_COUNT };
+              SM_CAL_DIR, SM_CAL_PUBTIME, SM_CAL_SIBLING, SM_REC_TIME, SM_REC_HASH, SM_DOC_SHA1, SM_RFC_INPUT, SM_RFC_TIME, SM_RFC_INDEX, SM_RFC_ALG_SHA1, SM_RFC_PREFIX, SM_META_PAD, SM_CORR_OVERFLOW, SM_CAL_EXTRA_LINK, SM_CAL_SIB_ALG, SM_RFC_OUT_SHA1, SM_RELABEL_INPUT_ALG, SM_COUNT };
 static const char *kSigMutName[] = {"next-chain-input", "sibling", "level-correction", "chain-alg-other", "chain-alg-sha1", "chain-alg-unsupported", "chain-time", "index-last", "index-add", "index-drop", "link-direction", "cal-input", "cal-aggr-time",
-                                    "cal-drop-aggr-time", "cal-link-direction", "cal-pub-time", "cal-sibling", "record-time", "record-hash", "doc-hash-sha1", "rfc-input", "rfc-time", "rfc-index", "rfc-alg-sha1", "rfc-prefix", "metadata-padding", "level-overflow", "cal-extra-link", "cal-sibling-alg", "rfc-output-sha1"};
+                                    "cal-drop-aggr-time", "cal-link-direction", "cal-pub-time", "cal-sibling", "record-time", "record-hash", "doc-hash-sha1", "rfc-input", "rfc-time", "rfc-index", "rfc-alg-sha1", "rfc-prefix", "metadata-padding", "level-overflow", "cal-extra-link", "cal-sibling-alg", "rfc-output-sha1", "relabel-input-algorithm-same-digest"};
 // returns false when the mutation does not apply to this signature
 inline bool applySigMut(Sig &s, int kind, Dec &d, std::string &note) {
     size_t n = s.chains.size(); size_t ci = d.pick((uint32_t)n); AggChain &c = s.chains[ci];
@@ -49,6 +49,16 @@ inline bool applySigMut(Sig &s, int kind, Dec &d, std::string &note) {
     case SM_RFC_ALG_SHA1: if (!s.hasRfc) return false; if (d.flag()) s.rfc.tstAlg = 0; else s.rfc.sigAlg = 0; relink(s); return true;
     case SM_RFC_OUT_SHA1: if (!s.hasRfc) return false; s.chains[0].inputHash = Bytes(21, 0); relink(s); return true;
     case SM_RFC_PREFIX: if (!s.hasRfc) return false; if (s.rfc.tstPre.empty()) s.rfc.tstPre.push_back(1); else s.rfc.tstPre[0] ^= 1; return true;
+    case SM_RELABEL_INPUT_ALG: { // an input hash carrying the right digest under another algorithm id of equal digest length; everything downstream is recomputed from the relabelled imprint, so only that one comparison is wrong
+        auto other = [](uint8_t a) -> int { switch (a) { case 1: return 8; case 8: return 1; case 11: return 1; case 0: return 2; case 2: return 0; case 4: return 9; case 9: return 4; case 5: return 10; case 10: return 5; default: return -1; } };
+        bool atCal = s.hasCal && (n < 2 || d.flag());
+        if (atCal) { if (s.cal.links.empty() || !s.cal.links[0].isLeft) return false; /* the first step must take its algorithm from the sibling */ int o = other(s.cal.inputHash[0]); if (o < 0) return false; if (s.cal.inputHash[0] == 1 && d.flag()) o = 11; s.cal.inputHash[0] = (uint8_t)o;
+            ChainResult cr = calAggregate(s.cal.links, s.cal.inputHash); if (!cr.ok) return false; if (s.hasPub) s.pub.data.hash = cr.hash; if (s.hasAuth) s.auth.data.hash = cr.hash; note = "calendar-input"; return true; }
+        if (n < 2) return false; ci = 1 + d.pick((uint32_t)n - 1); int o = other(s.chains[ci].inputHash[0]); if (o < 0) return false; s.chains[ci].inputHash[0] = (uint8_t)o;
+        { Bytes cur = s.chains[ci].inputHash; int level = 0; for (size_t i = 0; i < ci; i++) { ChainResult r0 = aggregate(s.chains[i].links, s.chains[i].inputHash, level, (int)s.chains[i].algId); if (!r0.ok) return false; level = r0.level; }
+          for (size_t i = ci; i < n; i++) { s.chains[i].inputHash = cur; ChainResult r = aggregate(s.chains[i].links, cur, level, (int)s.chains[i].algId); if (!r.ok) return false; cur = r.hash; level = r.level; }
+          if (s.hasCal) { s.cal.inputHash = cur; ChainResult cr = calAggregate(s.cal.links, cur); if (cr.ok) { if (s.hasPub) s.pub.data.hash = cr.hash; if (s.hasAuth) s.auth.data.hash = cr.hash; } } }
+        note = "chain-" + std::to_string(ci) + "-input"; return true; }
     case SM_META_PAD: {
         // find (or create) a metadata link, then break one padding condition; downstream hashes are recomputed
         Link *ml = nullptr; for (auto &ch : s.chains) for (auto &l : ch.links) if (l.kind == SIB_META && !ml) ml = &l;
